@@ -7,6 +7,7 @@ import (
 	"os"
 	"os/exec"
 	"path/filepath"
+	"strconv"
 	"time"
 
 	"verif/internal/core"
@@ -18,12 +19,12 @@ import (
 )
 
 type c14Params struct {
-	Vol    FatVol     `json:"vol"`
-	Steps  int        `json:"steps"`
-	Seed   int64      `json:"seed"`
-	Epoch  string     `json:"epoch"`
-	Shift  int64      `json:"shift,omitempty"` // second run places the volume at start+shift
-	Table  *TableSpec `json:"table,omitempty"`
+	Vol   FatVol     `json:"vol"`
+	Steps int        `json:"steps"`
+	Seed  int64      `json:"seed"`
+	Epoch string     `json:"epoch"`
+	Shift int64      `json:"shift,omitempty"` // second run places the volume at start+shift
+	Table *TableSpec `json:"table,omitempty"`
 }
 
 type c14Out struct {
@@ -34,6 +35,8 @@ type c14Out struct {
 	Stamps   []int64  `json:"stamps"` // every timestamp decoded from the directory entries (unix)
 	Err      string   `json:"err,omitempty"`
 	Problems []string `json:"problems,omitempty"`
+	ZoneOff  int      `json:"zone_offset"` // seconds east of UTC of the process's local zone at the epoch
+	Cwd      string   `json:"cwd"`
 }
 
 // c14Child: "vcheck c14child <params.json> <out.json>" — runs one seeded FAT history in
@@ -51,6 +54,10 @@ func c14Child(args []string) int {
 		return 4
 	}
 	var out c14Out
+	if ep, e := strconv.ParseInt(p.Epoch, 10, 64); e == nil {
+		_, out.ZoneOff = time.Unix(ep, 0).Zone()
+	}
+	out.Cwd, _ = os.Getwd()
 	func() {
 		v := p.Vol
 		v.Repro = true
@@ -91,7 +98,12 @@ func c14Child(args []string) int {
 	return 0
 }
 
-func c14RunChild(env *core.Env, tag string, p c14Params) (*c14Out, error) {
+// c14Zones: the second process of a pair runs in one of these local time zones (the first in UTC), in
+// another working directory and with other locale/home/temp settings: nothing of the process
+// environment may reach the image.
+var c14Zones = []string{"Asia/Tokyo", "America/New_York", "Pacific/Kiritimati", "Pacific/Pago_Pago", "Asia/Kolkata", "Europe/Berlin"}
+
+func c14RunChild(env *core.Env, tag string, p c14Params, second bool) (*c14Out, error) {
 	pf := filepath.Join(env.Scratch, "c14-"+tag+".json")
 	of := filepath.Join(env.Scratch, "c14-"+tag+".out.json")
 	raw, _ := json.Marshal(p)
@@ -99,7 +111,15 @@ func c14RunChild(env *core.Env, tag string, p c14Params) (*c14Out, error) {
 		return nil, err
 	}
 	cmd := exec.Command(env.Self, "c14child", pf, of)
-	cmd.Env = append(os.Environ(), "SOURCE_DATE_EPOCH="+p.Epoch)
+	cmd.Env = append(os.Environ(), "SOURCE_DATE_EPOCH="+p.Epoch, "TZ=UTC")
+	if second {
+		dir := filepath.Join(env.Scratch, "c14-cwd-"+tag)
+		os.MkdirAll(dir, 0o700)
+		defer os.RemoveAll(dir)
+		cmd.Dir = dir
+		z := c14Zones[int(uint64(p.Seed)%uint64(len(c14Zones)))]
+		cmd.Env = append(os.Environ(), "SOURCE_DATE_EPOCH="+p.Epoch, "TZ="+z, "LANG=tr_TR.UTF-8", "LC_ALL=tr_TR.UTF-8", "HOME="+dir, "TMPDIR="+dir, "USER=someoneelse", "HOSTNAME=otherhost", "GOMAXPROCS=3")
+	}
 	var stderr bytes.Buffer
 	cmd.Stderr = &stderr
 	done := make(chan error, 1)
@@ -139,7 +159,7 @@ func c14Run(c core.Case, env *core.Env) core.Result {
 	fail := func(rule, cause, f string, a ...any) {
 		res.Fail(fmt.Sprintf("C14/%s/%s/%s", p.Vol.Type, rule, cause), fmt.Sprintf(f, a...), p)
 	}
-	a, err := c14RunChild(env, c.ID+"-a", p)
+	a, err := c14RunChild(env, c.ID+"-a", p, false)
 	if err != nil {
 		res.Inconclusive = "first process: " + err.Error()
 		return res
@@ -148,7 +168,7 @@ func c14Run(c core.Case, env *core.Env) core.Result {
 	time.Sleep(2200 * time.Millisecond)
 	p2 := p
 	p2.Vol.Start += p.Shift
-	b, err := c14RunChild(env, c.ID+"-b", p2)
+	b, err := c14RunChild(env, c.ID+"-b", p2, true)
 	if err != nil {
 		res.Inconclusive = "second process: " + err.Error()
 		return res
@@ -168,7 +188,7 @@ func c14Run(c core.Case, env *core.Env) core.Result {
 		if p.Shift != 0 {
 			cause = "shifted-start"
 		}
-		fail("images-differ", cause, "reproducible mode, SOURCE_DATE_EPOCH=%s: the volume's byte range hashes to %s in the first process and %s in a second process started 2.2 s later (start %d vs %d)", p.Epoch, a.VolHash[:16], b.VolHash[:16], p.Vol.Start, p2.Vol.Start)
+		fail("images-differ", cause, "reproducible mode, SOURCE_DATE_EPOCH=%s: the volume's byte range hashes to %s in the first process and %s in a second process started 2.2 s later (start %d vs %d; local zone offset %d s vs %d s, different working directory and locale)", p.Epoch, a.VolHash[:16], b.VolHash[:16], p.Vol.Start, p2.Vol.Start, a.ZoneOff, b.ZoneOff)
 	}
 	// wall-clock leak amplifier: no decoded timestamp may lie near the run's wall-clock time
 	now := time.Now().Unix()
@@ -183,6 +203,10 @@ func c14Run(c core.Case, env *core.Env) core.Result {
 	}
 	if a.VolumeID != b.VolumeID {
 		fail("images-differ", "volume-id", "volume id %#x vs %#x", a.VolumeID, b.VolumeID)
+	}
+	if a.ZoneOff != b.ZoneOff && a.Cwd != b.Cwd {
+		res.Mark("second process in another time zone, directory and locale")
+		res.Count("pairs.zone_offsets_differ", 1)
 	}
 	res.Sig(p.Vol.Type, p.Vol.Size, p.Epoch, p.Shift, a.HistHash)
 	res.Mark(p.Vol.Type)
@@ -249,14 +273,14 @@ func c14RunTable(c core.Case, p c14Params) core.Result {
 func init() {
 	core.RegisterSub("c14child", c14Child)
 	core.Register(&core.Check{
-		ID:    "C14",
-		Level: "exploration",
-		Rule: "for FAT12/16/32 volumes of several sizes and start offsets and SOURCE_DATE_EPOCH in {0, 315532799 (pre-1980), odd seconds, 2001, 2107 edge}: the same seeded C01 history is run with the reproducible option in two separate worker processes, the second started 2.2 s after the first (FAT time resolution is 2 s) and, in half of the pairs, with the volume at a different start offset; the SHA-256 of the volume's byte range must be equal; every timestamp decoded from the image by the independent reader must not lie within two days of the wall clock (leak amplifier). Tables of C02: the same GPT (GUIDs given)/MBR written on two blank devices gives identical bytes, and Read followed by Write leaves the device bytes unchanged. Non-trivial = a pair whose history executed; distinct = distinct (volume, epoch, shift, history)",
+		ID:          "C14",
+		Level:       "exploration",
+		Rule:        "for FAT12/16/32 volumes of several sizes and start offsets and SOURCE_DATE_EPOCH in {0, 315532799 (pre-1980), odd seconds, 2001, 2107 edge}: the same seeded C01 history is run with the reproducible option in two separate worker processes, the second started 2.2 s after the first (FAT time resolution is 2 s), in another local time zone (first: UTC; second: one of Tokyo, New York, Kiritimati +14, Pago Pago -11, Kolkata +5:30, Berlin - zone data embedded in the harness binary, each child reports its zone offset), working directory, locale, HOME/TMPDIR/USER and GOMAXPROCS, and, in half of the pairs, with the volume at a different start offset; the SHA-256 of the volume's byte range must be equal; every timestamp decoded from the image by the independent reader must not lie within two days of the wall clock (leak amplifier). Tables of C02: the same GPT (GUIDs given)/MBR written on two blank devices gives identical bytes, and Read followed by Write leaves the device bytes unchanged. Non-trivial = a pair whose history executed; distinct = distinct (volume, epoch, shift, history)",
 		Assumptions: []string{"the system clock cannot be changed in the sandbox: 'regardless of wall-clock time' is decided for a 2.2 s separation plus the leak amplifier (any field within two days of now while the epoch is decades away)"},
-		MinSigs:   map[string]int{"quick": 40, "thorough": 600},
-		NeedMarks: []string{"fat12", "fat16", "fat32", "second run at a different start offset", "table gpt", "table mbr"},
-		Workers:   16,
-		CPUSec:    300,
+		MinSigs:     map[string]int{"quick": 40, "thorough": 600},
+		NeedMarks:   []string{"fat12", "fat16", "fat32", "second process in another time zone, directory and locale", "second run at a different start offset", "table gpt", "table mbr"},
+		Workers:     16,
+		CPUSec:      300,
 		Cases: func(seed int64, tier string) []core.Case {
 			r := gen.New(seed ^ 0xC14)
 			n, nt := 24, 120
